@@ -511,8 +511,13 @@ pub fn run_scenario(sc: &Scenario, erased: bool) -> RunOut {
                     });
                     if let Some((h, at)) = take_strong(&sh, &slots, a) {
                         let g = CallGuard::start(&sh, a, OpKind::Probe, 'U', PROBE_UID_BASE + a as u64, 0, Ctx::Main);
-                        let res = probe_ask(&sh, &h, PROBE_UID_BASE + a as u64).await;
-                        g.end(res);
+                        // bounded (one virtual hour): an actor stuck in a hook must not block the harness itself
+                        match tokio::time::timeout(Duration::from_millis(HOUR), probe_ask(&sh, &h, PROBE_UID_BASE + a as u64)).await {
+                            Ok(res) => {
+                                g.end(res);
+                            }
+                            Err(_) => drop(g),
+                        }
                         give_back(&sh, &slots, a, h, at);
                     }
                 }
